@@ -184,13 +184,26 @@ def queueTake (q : EncodeQueue) (n : Nat) : Res (EncodeQueue × List Byte) :=
   | .err _ => .ok ({ q with st := { q.st with done := q.st.done - n } }, out)
   | .null => .null | .oob => .oob | .fault => .fault
 
+/-- C++ `encode_queue::trim(take)` (mpt++/queue.cpp): like the flush, but a request beyond the finished size is
+    refused (`none`) -/
+def queueTrim (q : EncodeQueue) (take : Nat) : Res (Option (EncodeQueue × List Byte)) :=
+  if q.st.done > q.ring.len then .ok none
+  else if take > q.st.done then .ok none
+  else
+    let out := q.ring.content.take take
+    match q.ring.crop 0 take with
+    | .ok (r1, _) => .ok (some ({ q with ring := r1, st := { q.st with done := q.st.done - take } }, out))
+    | .err _ => .ok (some ({ q with st := { q.st with done := q.st.done - take } }, out))
+    | .null => .null | .oob => .oob | .fault => .fault
+
 /-! ### decode queue -/
 
 structure DecodeQueue where
   ring : Ring := { store := [], len := 0, off := 0 }
   st : DecState := {}
-  codec : Option Variant := none        -- `_dec`; `none` = no decoder
+  codec : Option Variant := none        -- `_dec`: one of the COBS decoders; `none` = no decoder, or (`command`) the command text decoder
   base : Nat := 0                       -- address of `data.base` mod 16
+  command : Bool := false               -- `_dec = mpt_decode_command`
   deriving Repr, DecidableEq, Inhabited
 
 /-- `vectorSet`: the one or two parts of the queue data with their addresses -/
@@ -286,15 +299,46 @@ def recvRaw (q : DecodeQueue) : Res (DecodeQueue × Int) :=
       | .ok q1 => .ok (q1, 0)
       | .err e => .err e | .null => .null | .oob => .oob | .fault => .fault
 
+/-- the same decoder call, `MissingBuffer` recovery and end of the receive with `mpt_decode_command` -/
+def decCallCmd (q : DecodeQueue) : DecodeQueue × DecRet :=
+  let o := decodeCommand q.st (segsOf q.ring q.base) false
+  ({ q with ring := { q.ring with store := putContent q.ring o.store }, st := o.st }, o.ret)
+
+def recvRetryCmd (q : DecodeQueue) : Res (DecodeQueue × Int) :=
+  let add := q.ring.max - q.ring.len
+  match q.ring.qpre add with
+  | .ok (r1, _) =>
+    match moveBack r1 add q.st.pos q.st.len with
+    | .ok r2 =>
+      let q1 : DecodeQueue := { q with ring := r2, st := { q.st with curr := q.st.curr + add } }
+      match decCallCmd q1 with
+      | (q2, .val _) => recvDone q2
+      | (q2, .err e) => .ok (q2, e.code)
+      | (_, .oob) => .oob
+      | (_, .clobber) => .oob
+    | .err e => .err e | .null => .null | .oob => .oob | .fault => .fault
+  | .err _ => .ok (q, Err.MissingBuffer.code)
+  | .null => .null | .oob => .oob | .fault => .fault
+
+def recvCmd (q : DecodeQueue) : Res (DecodeQueue × Int) :=
+  match decCallCmd q with
+  | (q1, .val _) => recvDone q1
+  | (q1, .err e) =>
+    if e ≠ .MissingBuffer then .ok (q1, e.code)
+    else if q1.ring.len ≥ q1.ring.max then .ok (q1, e.code)
+    else recvRetryCmd q1
+  | (_, .oob) => .oob
+  | (_, .clobber) => .oob
+
 /-- `mpt_queue_recv(qu)`: the queue afterwards and the C return value -/
 def queueRecv (q : DecodeQueue) : Res (DecodeQueue × Int) :=
   if q.ring.len = 0 then
     -- consume delivered empty message
-    if q.codec.isSome ∧ q.st.msg = some 0 then .ok ({ q with st := { q.st with msg := none } }, Err.MissingData.code)
+    if (q.codec.isSome ∨ q.command) ∧ q.st.msg = some 0 then .ok ({ q with st := { q.st with msg := none } }, Err.MissingData.code)
     else .ok (q, Err.MissingData.code)
   else
     match q.codec with
-    | none => recvRaw q
+    | none => if q.command then recvCmd q else recvRaw q
     | some v =>
       match decCall v q with
       | (q1, .val _) => recvDone q1
@@ -305,6 +349,17 @@ def queueRecv (q : DecodeQueue) : Res (DecodeQueue × Int) :=
         else recvRetry v q1
       | (_, .oob) => .oob
       | (_, .clobber) => .oob
+
+/-- C++ `decode_queue::advance()` (mpt++/queue.cpp): `mpt_queue_recv`, then `mpt_queue_shift` once more -/
+def queueAdvance (q : DecodeQueue) : Res (DecodeQueue × Bool) :=
+  match queueRecv q with
+  | .ok (q1, r) =>
+    if r < 0 then .ok (q1, false)
+    else
+      match queueShift q1 with
+      | .ok q2 => .ok (q2, true)
+      | .err e => .err e | .null => .null | .oob => .oob | .fault => .fault
+  | .err e => .err e | .null => .null | .oob => .oob | .fault => .fault
 
 /-- `mpt_message_get(qu, off, take, msg, vec)`: return code and the bytes the message denotes -/
 def messageGet (r : Ring) (off take : Nat) (vec : Bool := true) : Res (Int × List Byte) :=
